@@ -868,6 +868,21 @@ func runPSI(line []byte, rec *recorder) {
 					rec.ev(M{"ev": "cvec", "class": "bit-flip-in-a-repetition", "k": k, "pos": bit, "b": ints(c), "tabs": got, "errs": errs, "panic": pan})
 				}
 			}
+			if len(ms) == 1 && !big {
+				// the right checksum in the wrong byte order (least significant byte first), and each of its other byte permutations by rotation
+				end := 1 + ptr + len(twinSection(ms[0]))
+				for rot := 1; rot < 4; rot++ {
+					c := append([]byte(nil), unit...)
+					crc := append([]byte(nil), unit[end-4:end]...)
+					for j := 0; j < 4; j++ {
+						c[end-4+j] = crc[(j+rot)%4]
+					}
+					emit("crc-bytes-rotated", end-4, c)
+				}
+				c := append([]byte(nil), unit...)
+				c[end-4], c[end-3], c[end-2], c[end-1] = unit[end-1], unit[end-2], unit[end-3], unit[end-4]
+				emit("crc-byte-order-reversed", end-4, c)
+			}
 			for j := 0; j < 12; j++ {
 				c := append([]byte(nil), unit...)
 				p := r.intn(len(c))
